@@ -20,6 +20,10 @@ EXTENDS ModuleLoader
 
 Trace == ndJsonDeserialize("trace.ndjson")
 
+RECURSIVE SetToSeq(_)
+SetToSeq(S) == IF S = {} THEN <<>> ELSE LET x == CHOOSE y \in S : TRUE IN <<x>> \o SetToSeq(S \ {x})
+SortSet3(S) == SetToSeq(S)     \* CHOOSE is deterministic in TLC: equal sets give equal sequences
+
 VARIABLES l, parsed
 tvars == <<vars, l, parsed>>
 
@@ -29,6 +33,7 @@ IsEvent(e) == l <= Len(Trace) /\ Ev.ev = e /\ l' = l + 1
 ToSeqOfMods(x) == x       \* JSON arrays deserialize to sequences (tuples); <<>> for []
 
 TraceInit == /\ imports = [m \in User |-> <<>>] /\ nlits = [m \in User |-> 0] /\ missing = {}
+             /\ ndiag = [m \in User |-> 0] /\ bag = <<>> /\ round = 1 /\ past = <<>>
              /\ seen = {} /\ pc = [m \in Mods |-> "idle"] /\ idx = [m \in Mods |-> 1]
              /\ litsLeft = [m \in Mods |-> 0] /\ registry = {G}
              /\ depGraph = [m \in Mods |-> <<>>] /\ errs = <<>> /\ wg = 0 /\ ctr = 0
@@ -41,6 +46,9 @@ TReset == /\ IsEvent("Reset")
           /\ imports' = [m \in User |-> IF m \in DOMAIN Ev.imports THEN Ev.imports[m] ELSE <<>>]
           /\ nlits' = [m \in User |-> IF m \in DOMAIN Ev.nlits THEN Ev.nlits[m] ELSE 0]
           /\ missing' = {Ev.missing[i] : i \in 1 .. Len(Ev.missing)}
+          /\ ndiag' = [m \in User |-> IF "ndiag" \in DOMAIN Ev /\ m \in DOMAIN Ev.ndiag THEN Ev.ndiag[m] ELSE 0]
+          /\ bag' = <<>> /\ UNCHANGED past
+          /\ round' = IF "id" \in DOMAIN Ev THEN Ev.id ELSE 0      \* run identifier (trace mode)
           /\ seen' = {} /\ pc' = [m \in Mods |-> "idle"] /\ idx' = [m \in Mods |-> 1]
           /\ litsLeft' = [m \in Mods |-> 0] /\ registry' = {G}
           /\ depGraph' = [m \in Mods |-> <<>>] /\ errs' = <<>> /\ wg' = 0 /\ ctr' = 0
@@ -88,6 +96,11 @@ TraceNext == TReset \/ TClaim \/ TParseBegin \/ TLitID \/ TParsed \/ TDepEdge \/
              \/ TWaitDone \/ TTopo
 
 TraceSpec == TraceInit /\ [][TraceNext]_tvars
+
+(* C14: the specification's Output for each validated run; the driver groups the runs of one
+   project by this value -- runs with equal Output must produce byte-identical real output. *)
+EmitOut == mainpc = "done" => PrintT("@@OUT " \o ToJson([id |-> round, out |->
+                 [Output EXCEPT !.errset = SortSet3(Output.errset)]]))
 
 (* all events consumed and the last run completed *)
 TraceAccepted == TLCGet("stats").diameter - 1 = Len(Trace)
